@@ -23,6 +23,11 @@ func VerifNewKeyValue(nc *nats.Conn, bucket string) (KeyValue, error) {
 // VerifYield, when set (before any election is started), is called at every
 // activated failpoint site with the site's name. It runs without any library
 // lock held.
+// (One exception: the site "becomeLeaderPublishing" sits inside becomeLeader's
+// critical section, between the store of the leadership flag and the stores
+// of the term's id, token and revision. A hook may only pass real time there:
+// it lets concurrent readers of Status() run into the half-published term if
+// they are not excluded by the election mutex.)
 var VerifYield func(site string)
 
 func verifYield(site string) {
